@@ -122,6 +122,7 @@ type SimConn struct {
 	closeHook       func() // called once, on the first Close of this endpoint
 	closeOnce       sync.Once
 
+	wclass        int // residue class of the instants at which this endpoint writes
 	local, remote simAddr
 }
 
@@ -131,8 +132,8 @@ func NewConnPair(id int) (srv, cli *SimConn) {
 	base := 10 + 4*id
 	c2s := newHalf(base)
 	s2c := newHalf(base + 1)
-	srv = &SimConn{ID: id, Side: "srv", rd: c2s, wr: s2c, local: "server:25", remote: simAddr("client" + itoa(id) + ":1000")}
-	cli = &SimConn{ID: id, Side: "cli", rd: s2c, wr: c2s, local: simAddr("client" + itoa(id) + ":1000"), remote: "server:25"}
+	srv = &SimConn{ID: id, Side: "srv", rd: c2s, wr: s2c, wclass: base + 3, local: "server:25", remote: simAddr("client" + itoa(id) + ":1000")}
+	cli = &SimConn{ID: id, Side: "cli", rd: s2c, wr: c2s, wclass: base + 2, local: simAddr("client" + itoa(id) + ":1000"), remote: "server:25"}
 	return
 }
 
@@ -171,14 +172,14 @@ func closedErr(op string) error { return &net.OpError{Op: op, Net: "sim", Err: n
 // to the connection must not depend on how the two were scheduled. At its own
 // instant the other actor has run to its next blocking point, because the fake
 // clock only moves when every goroutine is blocked.
-func (c *SimConn) ownInstant() {
-	if int(time.Now().UnixNano()%classMod) != c.rd.rclass%classMod && !underConnLock() {
-		sleepClass(c.rd.rclass, 0)
+func (c *SimConn) ownInstant(class int) {
+	if int(time.Now().UnixNano()%classMod) != class%classMod && !underConnLock() {
+		sleepClass(class, 0)
 	}
 }
 
 func (c *SimConn) Read(b []byte) (int, error) {
-	c.ownInstant()
+	c.ownInstant(c.rd.rclass)
 	h := c.rd
 	h.mu.Lock()
 	defer h.mu.Unlock()
@@ -274,7 +275,9 @@ func (h *pipeHalf) ensureWaker(now, target int64) {
 }
 
 func (c *SimConn) Write(b []byte) (int, error) {
-	c.ownInstant()
+	// (writes have a class of their own: two goroutines of the library may use one
+	// connection at a time, one reading - an LMTP delivery - and one writing)
+	c.ownInstant(c.wclass)
 	c.wmu.Lock()
 	if c.wdeadline != 0 && time.Now().UnixNano() >= c.wdeadline {
 		c.wmu.Unlock()
@@ -393,7 +396,7 @@ func (c *SimConn) blockedWrite(h *pipeHalf) error {
 		}
 		h.cond.Wait()
 		h.mu.Unlock()
-		sleepClass(c.rd.rclass, 0)
+		sleepClass(c.wclass, 0)
 		h.mu.Lock()
 	}
 }
